@@ -625,6 +625,7 @@ func runC19(tier string, r *Result) {
 		if !r.mine(idx) || r.expired() {
 			return
 		}
+		r.note(in)
 		msg, key, outcome := runHistory(w, in)
 		// a TCP port the harness believed free may be taken by a concurrent shard's ephemeral port:
 		// re-pick and re-run; only a failure that persists over 4 fresh ports is reported
